@@ -11,7 +11,8 @@ from harness.common import EPS_W, bt, dates, frame
 BOUNDS = {
     'quick': '3-security tree with symbolic positions and capital (live weights symbolic); symbolic target weights in [-1,1] / [0,1]; limits from grids; selection a '
              'solver-chosen subset; WeighRandomly n<=3 with bounds/sum grids; TargetVol and PTE_Rebalance on 2 assets with symbolic covariance (s11,s22 in '
-             '[1e-6,1e-2], |s12| <= sqrt(s11 s22)), degree <= 6',
+             '[1e-6,1e-2], |s12| <= sqrt(s11 s22)), degree <= 6; PTE_Rebalance also with held names and target columns differing (3x3 block-diagonal covariance); estimation window of both algos '
+             'on two concrete daily calendars around month ends (31/30-day months, leap February) with month lookbacks and day lags 0..3',
     'thorough': 'same configurations with cvc5 second opinion on sampled obligations',
 }
 ASSUMPTIONS = ['WeighInvVol: the numeric risk relation is NOT claimed (ffn kernel concretises via np.std on the frame); its window is covered in C04',
@@ -223,6 +224,31 @@ def h_vol(run, cfg):
             run.check_near(q, T * T, 1e-7, 'targetvol-exante-vol-equals-target')
             # direction preserved
             run.check_near(w['a'] * wb, w['b'] * wa, 1e-7, 'targetvol-keeps-proportions')
+        elif cfg.get('mismatch'):
+            # held names and target columns differ: b is held without a target, c has a target and was never traded
+            pd.DataFrame.cov = old
+            B, s, dts, cols = tree(run, dict(cfg, held=2), nsec=3)
+            A = B.algos
+            s33 = run.real('s33', 1e-6, 1e-2)
+            names = ['a', 'b', 'c']
+            m = pd.DataFrame([[s11, s12, 0.0], [s12, s22, 0.0], [0.0, 0.0, s33]], index=names, columns=names)
+            from symbt.shims import ObjFrame
+            cov3 = ObjFrame(m.astype(object)) if run.mode == 'sym' else m.astype(float)
+            pd.DataFrame.cov = lambda self, *a, **k: cov3.loc[list(self.columns), list(self.columns)]
+            cap = cfg['cap']
+            tw = pd.DataFrame({'a': [0.5, 0.5], 'c': [0.25, 0.25]}, index=dts)
+            res = A.PTE_Rebalance(cap, tw, lookback=pd.DateOffset(days=1), annualization_factor=af)(s)
+            da = s['a'].weight - 0.5
+            db = s['b'].weight
+            dc = -0.25
+            q = (da * da * s11 + 2 * da * db * s12 + db * db * s22 + dc * dc * s33) * af
+            cond = q > cap * cap
+            if run.mode == 'sym':
+                from symbt.sym import SymBool
+                if isinstance(cond, SymBool):
+                    run.check(cond if res else ~cond, 'pte-fires-iff-vol-above-cap', 'names differ; returned %s' % res)
+                    return
+            run.check(bool(res) == bool(cond), 'pte-fires-iff-vol-above-cap', 'names differ; returned %s' % res)
         else:
             cap = cfg['cap']
             tw = pd.DataFrame({'a': [0.5, 0.5], 'b': [0.25, 0.25]}, index=dts)
@@ -237,6 +263,52 @@ def h_vol(run, cfg):
                     run.check(cond if res else ~cond, 'pte-fires-iff-vol-above-cap', 'returned %s' % res)
                     return
             run.check(bool(res) == bool(cond), 'pte-fires-iff-vol-above-cap', 'returned %s' % res)
+    finally:
+        pd.DataFrame.cov = old
+
+
+def h_vol_window(run, cfg):
+    """The estimation window of TargetVol / PTE_Rebalance is [ (now - lag) - lookback, now - lag ]: the rows handed to the covariance estimator are
+    recorded by a stub and compared with that window on calendars where month arithmetic does not commute with day arithmetic."""
+    B = bt()
+    A = B.algos
+    dts = pd.date_range(cfg['start'], periods=cfg['n'], freq='D')
+    data = frame(run, dts, ['a', 'b'], lambda i, c: 100.0 + (i * 7 % 5) if c == 'a' else 40.0 + (i * 3 % 7))
+    s = B.Strategy('s', [], ['a', 'b'])
+    s.use_integer_positions(False)
+    s.setup(data)
+    s.update(dts[0])
+    s.adjust(1000000.0)
+    s.transact(100.0, 'a')
+    s.transact(50.0, 'b')
+    s.update(dts[0])
+    seen = []
+    covm = pd.DataFrame([[1e-4, 2e-5], [2e-5, 4e-4]], index=['a', 'b'], columns=['a', 'b'])     # the estimate itself is the subject of `vol`
+    old = pd.DataFrame.cov
+
+    def cov(self, *a, **k):
+        seen.append(list(self.index))
+        return covm
+    pd.DataFrame.cov = cov
+    try:
+        lookback = pd.DateOffset(months=cfg['months'])
+        for now in [pd.Timestamp(x) for x in cfg['probes']]:
+            s.update(now)
+            for lagdays in cfg['lags']:
+                lag = pd.DateOffset(days=lagdays)
+                t0 = now - lag
+                want = [d for d in dts if t0 - lookback <= d <= t0]
+                for what in ('TargetVol', 'PTE_Rebalance'):
+                    del seen[:]
+                    if what == 'TargetVol':
+                        s.temp = {'weights': {'a': 0.5, 'b': 0.5}}
+                        A.TargetVol(0.125, lookback=lookback, lag=lag)(s)
+                    else:
+                        tw = pd.DataFrame({'a': 0.5, 'b': 0.25}, index=dts)
+                        A.PTE_Rebalance(0.125, tw, lookback=lookback, lag=lag)(s)
+                    run.check(len(seen) == 1 and seen[0] == want, 'estimation-window', '%s now=%s lag=%dd lookback=%dm: rows %s..%s (%d), expected %s..%s (%d)' % (
+                        what, now.date(), lagdays, cfg['months'], seen[0][0].date() if seen and seen[0] else None, seen[0][-1].date() if seen and seen[0] else None,
+                        len(seen[0]) if seen else -1, want[0].date(), want[-1].date(), len(want)))
     finally:
         pd.DataFrame.cov = old
 
@@ -259,7 +331,7 @@ def h_invvol(run, cfg):
     run.check_near(w['a'] + w['b'], 1.0, 1e-7, 'invvol-sum-one')
 
 
-HARNESSES = {'direct': h_direct, 'random': h_random, 'vol': h_vol, 'invvol': h_invvol}
+HARNESSES = {'direct': h_direct, 'random': h_random, 'vol': h_vol, 'vol_window': h_vol_window, 'invvol': h_invvol}
 WITNESS_CAP = {'quick': 150, 'thorough': 300}
 
 
@@ -284,6 +356,9 @@ def plan(tier):
             tasks.append(dict(harness='vol', cfg=dict(algo='TargetVol', w=list(w), target=T, deg_limit=8), opts=vopts))
     for cap in (0.0625, 0.25):
         tasks.append(dict(harness='vol', cfg=dict(algo='PTE_Rebalance', cap=cap, deg_limit=8), opts=vopts))
+        tasks.append(dict(harness='vol', cfg=dict(algo='PTE_Rebalance', cap=cap, mismatch=1, deg_limit=8), opts=vopts))
+    tasks.append(dict(harness='vol_window', cfg=dict(start='2010-04-25', n=40, months=1, lags=[0, 1, 2], probes=['2010-05-29', '2010-05-30', '2010-05-31', '2010-06-01']), opts=vopts))
+    tasks.append(dict(harness='vol_window', cfg=dict(start='2011-12-20', n=75, months=2, lags=[1, 3], probes=['2012-02-29', '2012-03-01', '2012-03-02']), opts=vopts))
     # WeighInvVol's risk relation is not claimed: ffn's kernel reduces with np.std / np.isinf on the frame, which concretises symbolic cells
     # (measured: 'float() of a symbolic real' at algos.py WeighInvVol.__call__); its window arithmetic is covered by C04.
     return tasks
